@@ -34,6 +34,10 @@ def r14_1(ctx: Ctx) -> None:
             try:
                 v = ctx.ce.eval(c.args[1], "archiveinfo")
             except NotConst:
+                if any(attr_tail(x) == "calccrc" for x in q.calls(f)):
+                    ctx.fail("R14.1", f, f.node, "the placeholder signature header is produced with calccrc(), i.e. with a start-header CRC that verifies: a session that dies before "
+                                                "close leaves a file that opens as a valid empty archive", construct="placeholder start header crc")
+                    return
                 raise AnalysisError(f"placeholder field `{norm(c.args[1])}` is not a constant")
             vals.append((shared.WIDTHS[attr_tail(c)], v))
     ctx.need([w for w, _ in vals] == [4, 8, 8, 4], f"placeholder fields not recognised: {vals}")
@@ -125,6 +129,7 @@ def r14_6(ctx: Ctx) -> None:
 
 
 def run(ctx: Ctx) -> None:
+    shared.strict_reads(ctx, "R14.7")
     r14_1(ctx)
     r14_2(ctx)
     c04.r04_1(ctx)
